@@ -863,13 +863,17 @@ func GenSchema(seed int64, hostile bool) (string, map[string]int) {
 			split = 1 + g.r.Intn(len(t.values)-1)
 			g.f("extend_enum")
 		}
+		allDep := g.p(12) // an enum whose values are ALL deprecated: the default (non-deprecated) view of it is empty
+		if allDep {
+			g.f("enum_all_values_deprecated")
+		}
 		for i, v := range t.values {
 			w := &sb
 			if i >= split {
 				w = &ext
 			}
 			w.WriteString("  " + g.desc("enumValue", "\n  ") + v)
-			if g.p(30) {
+			if allDep || g.p(30) {
 				w.WriteString(g.deprecated("enumValue"))
 			}
 			w.WriteString(g.applied("ENUM_VALUE", "") + "\n")
